@@ -400,6 +400,12 @@ def run(ck, n_hints: int, seed: int, focus: str, depth: int = 3, exhaustive_dept
                'each pair under 7 forced draws (random) + 2 (is_random=False) through 5 entry points. distinct_nontrivial = distinct '
                '(hint shape with >=1 container/union/annotated level, model sat, model verdict) triples observed')
     ex.extra['verdict_split'] = dict(verdict_split)
+    # the decidable side conditions of the theorems (W.Wf via checkWf, h.WfIn via capsOk, x.wf), per case
+    ex.extra['hypotheses_checked'] = corr.HYPS['checked']
+    ex.extra['hypotheses_failed'] = corr.HYPS['failed']
+    if corr.HYPS['failed']:
+        ex.corr_diffs.append({'tie': 'hypotheses', 'what': f"{corr.HYPS['failed']} generated case(s) violate a side condition of the "
+                              'Lean theorems (class table not well-formed, an origin without its capabilities, or an ill-formed object)'})
     ex.extra['pairs'] = len(group)
     ex.samples = [{'hint': repr(m[0])[:200], 'object': repr(m[1])[:120], 'conf': m[2]} for m in meta[:3]]
 
